@@ -313,6 +313,7 @@ def verify_function(E: Engine, q: str) -> dict:
     """Generates all obligations for function q against its contract. Returns summary info."""
     c = E.spec.fns[q]
     E.verifying = q
+    E.nl = c.nl
     fn, mod, cls, st = entry_state(E, q, c)
     # attachment checks
     nloops = len(loops_of(fn))
